@@ -593,8 +593,10 @@ def entropy_sizes_all(ip, n):
     return r
 
 
-from .spec_ed import *   # noqa: E402,F401  (Ed25519 vocabulary: spec.ed_*)
 from . import spec_ed  # noqa: E402
+for _n in dir(spec_ed):      # Ed25519 vocabulary: spec.ed_*  (only the public spec functions, not the z3 symbols)
+    if _n.startswith("ed_") or _n == "mk_ept":
+        globals()[_n] = getattr(spec_ed, _n)
 
 f_ed_dec = z3.Function("ed_dec", sym.B, spec_ed.EPt)
 
